@@ -1221,6 +1221,95 @@ fn tiny_ufo(dir: &Path, version: u32, fontinfo_body: Option<String>, layerinfo_b
     }
 }
 
+const NUM_TEXTS: &[&str] = &["nan", "NaN", "-nan", "inf", "-inf", "+inf", "infinity", "-0", "-0.0", "0", "0.0", "1e400", "-1e400", "1e-400", "9223372036854775808",
+    "-9223372036854775809", "18446744073709551616", "1.5", "-1.5", "2147483647", "2147483648", "-2147483648", "-2147483649", "4294967295", "4294967296", "255", "256",
+    "-1", "1", "1000", "1e3", "0x10", "1e308", "-1e308", "5e-324", "0.9999999999999999", "65535", "65536", "360", "400"];
+const V2_SCALARS: &[&str] = &["unitsPerEm", "ascender", "descender", "xHeight", "capHeight", "italicAngle", "macintoshFONDFamilyID", "openTypeHeadLowestRecPPEM",
+    "openTypeHheaAscender", "openTypeHheaCaretOffset", "openTypeHheaCaretSlopeRise", "openTypeHheaCaretSlopeRun", "openTypeHheaDescender", "openTypeHheaLineGap",
+    "openTypeOS2StrikeoutPosition", "openTypeOS2StrikeoutSize", "openTypeOS2SubscriptXOffset", "openTypeOS2SubscriptXSize", "openTypeOS2SubscriptYOffset",
+    "openTypeOS2SubscriptYSize", "openTypeOS2SuperscriptXOffset", "openTypeOS2SuperscriptXSize", "openTypeOS2SuperscriptYOffset", "openTypeOS2SuperscriptYSize",
+    "openTypeOS2TypoAscender", "openTypeOS2TypoDescender", "openTypeOS2TypoLineGap", "openTypeOS2WeightClass", "openTypeOS2WidthClass", "openTypeOS2WinAscent",
+    "openTypeOS2WinDescent", "openTypeVheaCaretOffset", "openTypeVheaCaretSlopeRise", "openTypeVheaCaretSlopeRun", "openTypeVheaVertTypoAscender",
+    "openTypeVheaVertTypoDescender", "openTypeVheaVertTypoLineGap", "postscriptBlueFuzz", "postscriptBlueScale", "postscriptBlueShift", "postscriptDefaultWidthX",
+    "postscriptNominalWidthX", "postscriptSlantAngle", "postscriptUnderlinePosition", "postscriptUnderlineThickness", "postscriptUniqueID",
+    "postscriptWindowsCharacterSet", "versionMajor", "versionMinor", "year"];
+const V2_LISTS: &[&str] = &["postscriptBlueValues", "postscriptOtherBlues", "postscriptFamilyBlues", "postscriptFamilyOtherBlues", "postscriptStemSnapH", "postscriptStemSnapV",
+    "openTypeHeadFlags", "openTypeOS2CodePageRanges", "openTypeOS2Selection", "openTypeOS2Type", "openTypeOS2UnicodeRanges", "openTypeOS2FamilyClass", "openTypeOS2Panose"];
+const V1_SCALARS: &[&str] = &["unitsPerEm", "ascender", "descender", "xHeight", "capHeight", "italicAngle", "defaultWidth", "fondID", "fontStyle", "msCharSet", "slantAngle",
+    "uniqueID", "versionMajor", "versionMinor", "weightValue", "year"];
+const HINT_SCALARS: &[&str] = &["blueFuzz", "blueScale", "blueShift"];
+const HINT_LISTS: &[&str] = &["hStems", "vStems"];
+const HINT_NESTED: &[&str] = &["blueValues", "otherBlues", "familyBlues", "familyOtherBlues"];
+
+fn num_elem(rng: &mut Rng) -> String {
+    let t = *rng.pick(NUM_TEXTS);
+    let tag = if rng.chance(1, 2) { "real" } else { "integer" };
+    format!("<{}>{}</{}>", tag, t, tag)
+}
+
+/// every numeric key of fontinfo.plist in the three format versions (scalars, lists, the robofab
+/// hint data that format 1 keeps in lib.plist) and kerning.plist values, with non-finite, signed
+/// zero, huge, fractional and out-of-range texts through `<real>` and `<integer>`
+fn case_legacy_numbers(deep: &Path, rng: &mut Rng, log: &mut CaseLog) {
+    let version = *rng.pick(&[1u32, 1, 2, 2, 3]);
+    let mut fi = String::new();
+    let mut desc = format!("value fontinfo numbers v{}:", version);
+    let scalars = if version == 1 { V1_SCALARS } else { V2_SCALARS };
+    let mut used: Vec<&str> = vec![];
+    for _ in 0..1 + rng.below(3) {
+        // unitsPerEm often: it goes through the non-negative conversion of the legacy formats
+        let k = if rng.chance(1, 4) { "unitsPerEm" } else { *rng.pick(scalars) };
+        if used.contains(&k) {
+            continue;
+        }
+        used.push(k);
+        let e = num_elem(rng);
+        desc.push_str(&format!(" {}={}", k, e));
+        fi.push_str(&format!("<key>{}</key>{}", k, e));
+    }
+    if version != 1 && rng.chance(1, 3) {
+        let k = *rng.pick(V2_LISTS);
+        let n = *rng.pick(&[0u64, 1, 2, 3, 9, 10, 11, 14, 15]);
+        let items: String = (0..n).map(|_| num_elem(rng)).collect();
+        desc.push_str(&format!(" {}=[{} items: {}]", k, n, &items[..items.len().min(120)]));
+        fi.push_str(&format!("<key>{}</key><array>{}</array>", k, items));
+    }
+    let ufo = deep.join("v.ufo");
+    tiny_ufo(&ufo, version, Some(fi), None, None);
+    if version == 1 && rng.chance(1, 2) {
+        let mut h = String::new();
+        for _ in 0..1 + rng.below(3) {
+            match rng.below(3) {
+                0 => h.push_str(&format!("<key>{}</key>{}", *rng.pick(HINT_SCALARS), num_elem(rng))),
+                1 => {
+                    let n = rng.below(4);
+                    let items: String = (0..n).map(|_| num_elem(rng)).collect();
+                    h.push_str(&format!("<key>{}</key><array>{}</array>", *rng.pick(HINT_LISTS), items));
+                }
+                _ => {
+                    let n = rng.below(3);
+                    let items: String = (0..n).map(|_| format!("<array>{}{}</array>", num_elem(rng), num_elem(rng))).collect();
+                    h.push_str(&format!("<key>{}</key><array>{}</array>", *rng.pick(HINT_NESTED), items));
+                }
+            }
+        }
+        desc.push_str(&format!(" lib.plist robofab hint data {{{}}}", &h[..h.len().min(300)]));
+        let _ = std::fs::write(ufo.join("lib.plist"), format!("{}<dict><key>org.robofab.postScriptHintData</key><dict>{}</dict></dict>\n</plist>\n", PLIST_HEAD, h));
+    }
+    if rng.chance(1, 3) {
+        let (a, b) = (num_elem(rng), num_elem(rng));
+        desc.push_str(&format!(" kerning a-b={} @MMK_L_x-b={}", a, b));
+        let _ = std::fs::write(ufo.join("kerning.plist"), format!("{}<dict><key>a</key><dict><key>b</key>{}</dict><key>@MMK_L_x</key><dict><key>b</key>{}</dict></dict>\n</plist>\n", PLIST_HEAD, a, b));
+        let _ = std::fs::write(ufo.join("groups.plist"), format!("{}<dict><key>@MMK_L_x</key><array><string>a</string></array></dict>\n</plist>\n", PLIST_HEAD));
+    }
+    log.desc = desc;
+    log.hash = fnv(log.desc.as_bytes());
+    if let Some(Ok(font)) = log.guard("Font::load", || Font::load(&ufo), |r| r.is_ok()) {
+        log.deep = true;
+        exercise_font(deep, log, &font, rng, true);
+    }
+}
+
 /// a leaf text for plist-in-XML glue: a short base (numbers with hex / sign / exponent prefixes in
 /// both cases, dates, base64, blanks) with 1-3 multi-byte chars placed so that the byte offsets
 /// 1..4 fall inside a character
@@ -1330,8 +1419,9 @@ fn case_leaf_values(deep: &Path, ds_base: &str, rng: &mut Rng, log: &mut CaseLog
 /// character class, and would satisfy the class under a weakened test (is_numeric, chars().count())
 fn case_values(env: &mut Env, _idx: u64, rng: &mut Rng, log: &mut CaseLog, keep: bool) {
     let (top, deep) = env.case_dir();
-    let kind = rng.below(14);
+    let kind = rng.below(19);
     match kind {
+        14..=18 => case_legacy_numbers(&deep, rng, log),
         10..=13 => {
             let base = env.dss.iter().find(|(_, b)| find_all(b, b"<lib").is_empty()).map(|(_, b)| String::from_utf8_lossy(b).to_string()).unwrap_or_default();
             case_leaf_values(&deep, &base, rng, log)
